@@ -323,13 +323,28 @@ Definition cap_i : text := nth 0 cap_probes [].
 Definition cap_inf : text := nth 1 cap_probes [].
 Definition cap_nan : text := nth 2 cap_probes [].
 
-(* check_inf_nan_cap(arg, value): true = no ValueError.  A finite description that overflows to
-   infinity meets isinf(value) too, but then arg would have to hold an i, which no decimal text does. *)
+(* isinf(value) for a finite decimal description: strtod rounds mant * 10^exp to infinity exactly when it
+   reaches 2^1024 - 2^970 (halfway between the largest double and 2^1024; ties go to even = infinity) *)
+Definition dbl_inf_threshold : Z := (2 ^ 1024 - 2 ^ 970)%Z.
+Definition overflows (m : N) (e : Z) : bool :=
+  if m =? 0 then false
+  else if (0 <=? e)%Z then
+    (if (310 <=? e)%Z then true else (dbl_inf_threshold <=? Z.of_N m * 10 ^ e)%Z)
+  else
+    let k := Z.opp e in
+    if (Z.of_N (N.log2 m) + 1 <? k)%Z then false          (* below 1 *)
+    else (dbl_inf_threshold * 10 ^ k <=? Z.of_N m)%Z.
+
+Definition inf_ok (arg : text) : bool := negb (has_i arg && negb (contains cap_inf arg)).
+
+(* check_inf_nan_cap(arg, value): true = no ValueError.  isinf(value) also holds for a decimal text that
+   overflows (1e400); that matters when arg holds an i from elsewhere, as in " inf+1e400j" where the
+   second check sees "inf+1e400j" together with the overflowed imaginary part. *)
 Definition cap_ok (arg : text) (v : fdesc) : bool :=
   match v with
-  | FInf _ => negb (has_i arg && negb (contains cap_inf arg))
+  | FInf _ => inf_ok arg
   | FNan _ => contains cap_nan arg
-  | FFin _ _ _ => true
+  | FFin _ m e => if overflows m e then inf_ok arg else true
   end.
 
 (* Float.__new__ on a str *)
